@@ -110,6 +110,7 @@ func execC06TCP(f []string) string {
 	if err != nil {
 		return "procerr"
 	}
+	defer hx.DropScopes("service." + p.Name() + ".") // runs after the Stop registered below
 	defer p.Stop()
 	type heldConn struct {
 		c   net.Conn
